@@ -28,7 +28,7 @@ type c19Case struct {
 }
 
 func genC19(t *rapid.T) c19Case {
-	c := c19Case{Mode: []string{"unary", "exchange", "producer", "producer", "ext_unary", "ext_producer"}[rapid.IntRange(0, 5).Draw(t, "mode")],
+	c := c19Case{Mode: []string{"unary", "exchange", "producer", "producer", "ext_unary", "ext_producer", "ext_exchange"}[rapid.IntRange(0, 6).Draw(t, "mode")],
 		Compress: rapid.IntRange(0, 3).Draw(t, "compress") == 0}
 	switch c.Mode {
 	case "unary", "exchange":
@@ -43,7 +43,7 @@ func genC19(t *rapid.T) c19Case {
 			c.Rows = append(c.Rows, rapid.IntRange(1, 3).Draw(t, "rows"))
 		}
 		c.Limit = []int{0, 0, 1, 3, 7}[rapid.IntRange(0, 4).Draw(t, "limit")]
-	case "ext_unary":
+	case "ext_unary", "ext_exchange":
 		c.Thresh = int64(rapid.IntRange(64, 800).Draw(t, "thresh"))
 		c.Cap = int64(rapid.IntRange(200, 3000).Draw(t, "cap"))
 		c.Size = max(0, int(c.Cap)+rapid.IntRange(-300, 300).Draw(t, "delta"))
@@ -249,20 +249,36 @@ func runC19(c c19Case) (out lib.Outcome) {
 		if d := diffItems(free.Items, items); d != "" {
 			out.Violate("C19/producer-stream-incomplete", "capped conversation (%d responses) differs from the uncapped stream: %s", responses, d)
 		}
-	case "ext_unary":
+	case "ext_unary", "ext_exchange":
 		st := &recStorage{}
 		h := c19Server(c, true, st)
-		call := lib.CallSpec{Kind: "unary", Method: "u_bytes", Unary: &lib.UnaryScript{ID: "u", Outcome: "value", Size: c.Size}}
-		req, _ := call.PipeBytes()
-		resp := lib.PostArrow(h, "/u_bytes", req, hdr)
+		var resp lib.HTTPResp
+		var asize int64
+		if c.Mode == "ext_unary" {
+			call := lib.CallSpec{Kind: "unary", Method: "u_bytes", Unary: &lib.UnaryScript{ID: "u", Outcome: "value", Size: c.Size}}
+			req, _ := call.PipeBytes()
+			resp = lib.PostArrow(h, "/u_bytes", req, hdr)
+			// Arrow size of the result batch: offsets (8) + data
+			asize = int64(c.Size) + 8
+		} else {
+			// one exchange turn whose output batch is large enough to be uploaded
+			call := lib.CallSpec{Kind: "stream", Method: "s_exch", CancelAt: -1, Stream: &lib.StreamScript{ID: "x", InitOutcome: "ok", Turns: []lib.TurnSpec{{Act: "emit", Pad: c.Size}}}}
+			t := lib.HTTPInit(h, "", call, nil)
+			if t.Resp.Panic != "" || t.Cursor == "" {
+				out.Violate("C19/broken-response", "exchange init failed: status %d panic %q", t.Resp.Status, lib.Short(t.Resp.Panic, 100))
+				return
+			}
+			resp = lib.HTTPContinue(h, "", "s_exch", lib.Int64Batch(lib.InSchema, 1), t.Cursor, t.CallToken, nil, hdr).Resp
+			ref := lib.MakeOut(lib.OutSchema, 0, 1, c.Size)
+			asize = arrowSize(ref)
+			ref.Release()
+		}
 		if resp.Panic != "" || resp.Decoded == nil {
 			out.Violate("C19/broken-response", "panic %q", lib.Short(resp.Panic, 100))
 			return
 		}
 		streams, _ := lib.SplitStreams(resp.Decoded)
 		named, nErr, _ := hasErrorNaming(streams, "max_externalized_response_bytes")
-		// Arrow size of the result batch: offsets (8) + data
-		asize := int64(c.Size) + 8
 		// my Arrow-size estimate ignores the validity bitmap and padding: stay
 		// out of a 16-byte band around the threshold and the cap
 		if d := asize - c.Thresh; d >= -16 && d <= 16 {
@@ -383,7 +399,7 @@ var propC19 = lib.Prop[c19Case]{
 		"Oracle: unary/exchange differential against the same call on an uncapped server (body over cap -> one EXCEPTION naming max_response_bytes, else identical body); producer: in every response the last data batch starts at an offset <= cap, and following cursors yields exactly the uncapped stream; external: over-cap upload refused naming max_externalized_response_bytes with zero uploads, per-response uploaded Arrow size <= cap. Non-trivial: producer total > 2x cap, or a size within a batch of the cap.",
 	Gen:          genC19,
 	Run:          runC19,
-	Essential:    []string{"mode:unary", "mode:exchange", "mode:producer", "mode:ext_unary", "mode:ext_producer", "over-cap", "within-cap", "near-cap", "total>2cap", "multi-response"},
+	Essential:    []string{"mode:unary", "mode:exchange", "mode:producer", "mode:ext_unary", "mode:ext_exchange", "mode:ext_producer", "over-cap", "within-cap", "near-cap", "total>2cap", "multi-response"},
 	EssentialMin: 200,
 }
 
